@@ -552,7 +552,22 @@ func (m *Mined) derivePlus(t *rapid.T) {
 			marked = marked || mk
 		}
 	}
-	if !marked {
+	// A later edit may have removed what an earlier one marked.
+	has := false
+	ast.Inspect(m.Plus, func(n ast.Node) bool {
+		switch x := n.(type) {
+		case *ast.Ident:
+			if strings.HasPrefix(x.Name, Marker) {
+				has = true
+			}
+		case *ast.BasicLit:
+			if strings.Contains(x.Value, Marker) {
+				has = true
+			}
+		}
+		return !has
+	})
+	if !marked || !has {
 		// Guaranteed fallback: wrap / prepend something carrying the marker.
 		m.forceMarker()
 		m.Edits = append(m.Edits, "force-marker")
@@ -604,7 +619,7 @@ func (m *Mined) forceMarker() {
 						s.Values[0] = &ast.CallExpr{Fun: markerIdent(0), Args: []ast.Expr{s.Values[0]}}
 						return
 					}
-					s.Type = &ast.ArrayType{Elt: orIdent(s.Type, "int")}
+					s.Type = &ast.IndexExpr{X: markerIdent(0), Index: orIdent(s.Type, "int")}
 					return
 				}
 			}
